@@ -1,0 +1,8 @@
+// Copyright (c) The Thanos Community Authors.
+// Licensed under the Apache License 2.0.
+
+// Package verifhook holds the seams a deterministic simulator needs inside the
+// engine: goroutine registration, yield points around blocking operations and
+// regions in which a goroutine must not be descheduled. Without the build tag
+// `verif` every function here is an empty, inlinable no-op.
+package verifhook
